@@ -730,3 +730,95 @@ Qed.
 Lemma scalar_ne_vector_unknown_type_lemma :
   scalar_all [(false, false, TyOther)] = Some [TyOther] /\ auto_types [(false, false, TyOther)] = None.
 Proof. split; reflexivity. Qed.
+
+(* ------------------------------------------------------------------ value columns *)
+Lemma written_values_single_lemma : forall s d a labs d',
+  create1 s d a = (Ok labs, d') ->
+  exists lab r, labs = [lab] /\ tab d' (s_table s) = tab d (s_table s) ++ [r] /\ r_label r = lab /\
+                r_vals r = row_values s a.
+Proof.
+  intros s d a labs d' H. destruct (adds_exactly_single_lemma _ _ _ _ _ H) as [lab [rs [H1 [_ [H3 _]]]]].
+  exists lab, (mkrow s a rs lab). repeat split; auto.
+Qed.
+
+Lemma cell_of_in s a cols : forall col v, In (col, v) (flat_map (cell_of s a) cols) ->
+  exists src, In (col, src) cols /\ In (col, v) (cell_of s a (col, src)).
+Proof.
+  induction cols as [|[c src] cols IH]; simpl; intros col v H; [destruct H|].
+  apply in_app_or in H. destruct H as [H|H].
+  - assert (c = col).
+    { unfold cell_of in H. simpl in H. destruct src; try destruct (arg_value s a p); simpl in H;
+        repeat (destruct H as [H|H]; [inversion H; auto|]); destruct H. }
+    subst. exists src. auto.
+  - destruct (IH _ _ H) as [src' [H1 H2]]. exists src'. auto.
+Qed.
+
+(* every value cell of a written row is the argument passed for its parameter, else the signature's default,
+   else (constant columns) null *)
+Lemma value_cells_lemma : forall s a col v, In (col, v) (row_values s a) ->
+  exists src, In (col, src) (s_cols s) /\
+    match src with
+    | FromParam p | BoolOf p => (exists x, get p (a_vals a) = Some x /\ v = x)
+                                \/ (get p (a_vals a) = None /\ get p (s_ndefaults s) = Some v)
+    | ConstNone => v = "null"
+    | Derived => False
+    end.
+Proof.
+  intros s a col v H. destruct (cell_of_in _ _ _ _ _ H) as [src [Hin Hc]]. exists src. split; auto.
+  unfold cell_of, arg_value in Hc. simpl in Hc.
+  destruct src as [p|p| |]; simpl in Hc.
+  - destruct (get p (a_vals a)) as [x|] eqn:E.
+    + destruct Hc as [Hc|[]]. inversion Hc. left. eauto.
+    + destruct (get p (s_ndefaults s)) as [y|] eqn:E2; [|destruct Hc]. destruct Hc as [Hc|[]]. inversion Hc. right. auto.
+  - destruct (get p (a_vals a)) as [x|] eqn:E.
+    + destruct Hc as [Hc|[]]. inversion Hc. left. eauto.
+    + destruct (get p (s_ndefaults s)) as [y|] eqn:E2; [|destruct Hc]. destruct Hc as [Hc|[]]. inversion Hc. right. auto.
+  - destruct Hc as [Hc|[]]. now inversion Hc.
+  - destruct Hc.
+Qed.
+
+(* and conversely every non-derived column whose argument has a value is written *)
+Lemma value_column_written_lemma : forall s a col p v,
+  (In (col, FromParam p) (s_cols s) \/ In (col, BoolOf p) (s_cols s)) -> arg_value s a p = Some v ->
+  In (col, v) (row_values s a).
+Proof.
+  intros s a col p v Hin Hv. unfold row_values. apply in_flat_map.
+  destruct Hin as [Hin|Hin]; eexists; (split; [exact Hin|]); unfold cell_of; simpl; rewrite Hv; simpl; auto.
+Qed.
+
+Lemma mkrows_vals s xs : forall labs r, In r (mkrows s xs labs) -> exists a rs, In (a, rs) xs /\ r_vals r = row_values s a.
+Proof.
+  induction xs as [|[a rs] xs IH]; intros [|l labs] r H; simpl in H; try destruct H.
+  - subst. exists a, rs. split; [now left|reflexivity].
+  - destruct (IH _ _ H) as [a' [rs' [H1 H2]]]. exists a', rs'. split; [now right|auto].
+Qed.
+
+Lemma precheck_all_args s d rows xs : precheck_all s d rows = inr xs -> map fst xs = rows.
+Proof.
+  revert xs. induction rows as [|a rows IH]; simpl; intros xs H.
+  - now inversion H.
+  - destruct (precheck s d a); try discriminate. destruct (precheck_all s d rows); try discriminate.
+    inversion H; subst. simpl. f_equal. auto.
+Qed.
+
+Lemma written_values_bulk_lemma : forall s d b labs d',
+  create_bulk s d b = (Ok labs, d') ->
+  exists rows, tab d' (s_table s) = tab d (s_table s) ++ rows /\ labels rows = labs /\
+               forall r, In r rows -> exists a, In a (b_rows b) /\ r_vals r = row_values s a.
+Proof.
+  intros s d b labs d' H. unfold create_bulk in H.
+  destruct (create_bulk_core s d b) as [e|[labs0 d0]] eqn:C; try discriminate.
+  destruct (s_late s && existsb a_late_bad (b_rows b)); try discriminate. inversion H; subst.
+  unfold create_bulk_core in C.
+  destruct (b_len_ok b); simpl in C; try discriminate.
+  destruct (Nat.eqb (length (bulk_labels d s b)) (length (b_rows b))) eqn:EL; simpl in C; try discriminate.
+  destruct (nodupb (bulk_labels d s b)); simpl in C; try discriminate.
+  destruct (existsb (has_label (tab d (s_table s))) (bulk_labels d s b)); try discriminate.
+  destruct (precheck_all s d (b_rows b)) as [|xs] eqn:PA; try discriminate.
+  inversion C; subst. apply Nat.eqb_eq in EL.
+  exists (mkrows s xs (bulk_labels d s b)). repeat split.
+  - now rewrite tab_insert_same.
+  - apply mkrows_labels. rewrite EL. symmetry. eapply precheck_all_length; eauto.
+  - intros r Hr. destruct (mkrows_vals _ _ _ _ Hr) as [a [rs [Hin Hv]]]. exists a. split; auto.
+    rewrite <- (precheck_all_args _ _ _ _ PA). apply in_map_iff. exists (a, rs). auto.
+Qed.
